@@ -171,6 +171,7 @@ func (e *Engine) verifyFunc(key string) (ctx *FuncCtx) {
 			st.vars[obj] = v
 			c.params[obj] = true
 		}
+		c.paramList = append(c.paramList, paramInfo{Name: id.Name, T: t, Term: name})
 		return v
 	}
 	if fd.Recv != nil && len(fd.Recv.List) == 1 {
@@ -300,7 +301,11 @@ func (c *FuncCtx) checkPost(st *State, specEnv map[string]*Val, recv *Val, args 
 	}
 	for i, cl := range c.contract.clauses("ensures") {
 		v := c.evalSpecAt(st, cl.Expr, c.decl.Body.Rbrace, env)
+		n0 := len(c.obls)
 		c.oblige(st, "post", fmt.Sprintf("post%d", i+1), c.decl.Body.Rbrace, v.S, cl.Tags, "ensures "+cl.Text)
+		for _, o := range c.obls[n0:] {
+			o.Clause = cl
+		}
 	}
 	c.checkFrame(st, env)
 }
